@@ -3,13 +3,17 @@
 //!   "k":"ght" -- histories on generalized hash tries (C08)
 use hvcommon::{Value, json};
 
+mod colt;
 mod ght;
+mod ght2;
 mod vc;
 
 fn run(case: &Value) -> Value {
     match case["k"].as_str() {
         Some("vc") => vc::run(case),
         Some("ght") => ght::run(case),
+        Some("ght2") => ght2::run(case),
+        Some("colt") => colt::run(case),
         Some("shapes") => ght::shapes(),
         _ => json!({ "bad_case": "unknown k" }),
     }
